@@ -213,9 +213,7 @@ def cases(tier, seed=0):
 def convert_cases(tier):
     q = tier == 'quick'
     k = 0
-    # all-zero tables are left out here: the JSON the library writes for them cannot be read back by the
-    # library (a JSON-reader defect, property C02), so `biom convert` never reaches the HDF5 writer
-    for A in U.RICH_BASE + ([[0.0, 2.0], [0.0, 0.0]], [[5.0]]):
+    for A in U.RICH_BASE + ([[0.0, 2.0], [0.0, 0.0]], [[5.0]], [[0.0, 0.0], [0.0, 0.0]]):
         for ids in sorted(rt.ID_ALPHABETS):
             for omd, smd in (('none', 'none'), ('tax', 'text'), ('mixed', 'num'), ('tax_ragged', 'text_edge')):
                 k += 1
@@ -241,7 +239,7 @@ def run(rep):
         rt.run_scope(rep, 'conformance', bound, cases(rep.tier, rep.seed), run_case, chunk=16,
                      exhaustive=False, module='C04')
         rt.run_scope(rep, 'convert-cli', '`biom convert -i table.json -o out.biom --to-hdf5` on JSON written by '
-                     'to_json: 5 matrices x 5 ID alphabets x 4 metadata pairs%s; expected content = the JSON input '
+                     'to_json: 6 matrices (one all-zero) x 5 ID alphabets x 4 metadata pairs%s; expected content = the JSON input '
                      'decoded with the standard library' % (' (every 3rd)' if q else ''),
                      convert_cases(rep.tier), run_convert_case, chunk=4, exhaustive=False, module='C04')
         rep.trust('h5py reads back what is in the file (dtypes, shapes, attributes)',
